@@ -59,18 +59,18 @@ func (v *Violation) ShapeKey() string {
 // Trace is the replay file: property, seed, configuration, steps, and what was
 // violated. Replaying it is a pure function of its contents and the code.
 type Trace struct {
-	Prop     string         `json:"property"`
-	Seed     uint64         `json:"seed"`
-	Tier     string         `json:"tier"`
-	Mode     string         `json:"mode"` // "steps" (execute Steps) or "generate" (regenerate from seed; used for fatal crashes)
-	Cfg      map[string]int `json:"cfg"`
-	Parties  []PartyCfg     `json:"parties"`
-	Steps    []Step         `json:"steps"`
-	Viol     *Violation     `json:"violation,omitempty"`
-	Digest   string         `json:"digest,omitempty"`
-	OrigLen  int            `json:"original_steps,omitempty"`
-	Log      []string       `json:"log,omitempty"`
-	Faults   map[string]int `json:"faults,omitempty"`
+	Prop    string         `json:"property"`
+	Seed    uint64         `json:"seed"`
+	Tier    string         `json:"tier"`
+	Mode    string         `json:"mode"` // "steps" (execute Steps) or "generate" (regenerate from seed; used for fatal crashes)
+	Cfg     map[string]int `json:"cfg"`
+	Parties []PartyCfg     `json:"parties"`
+	Steps   []Step         `json:"steps"`
+	Viol    *Violation     `json:"violation,omitempty"`
+	Digest  string         `json:"digest,omitempty"`
+	OrigLen int            `json:"original_steps,omitempty"`
+	Log     []string       `json:"log,omitempty"`
+	Faults  map[string]int `json:"faults,omitempty"`
 }
 
 type RunStats struct {
@@ -332,9 +332,27 @@ func Shrink(t *testing.T, p *PropDef, tr *Trace, budget time.Duration) *Trace {
 	// argument simplification
 	for i := 0; i < len(best.Steps) && time.Now().Before(deadline); i++ {
 		for _, f := range []func(s *Step) bool{
-			func(s *Step) bool { if s.B != 0 { s.B = 0; return true }; return false },
-			func(s *Step) bool { if s.C != 0 { s.C = 0; return true }; return false },
-			func(s *Step) bool { if s.D != 0 { s.D = 0; return true }; return false },
+			func(s *Step) bool {
+				if s.B != 0 {
+					s.B = 0
+					return true
+				}
+				return false
+			},
+			func(s *Step) bool {
+				if s.C != 0 {
+					s.C = 0
+					return true
+				}
+				return false
+			},
+			func(s *Step) bool {
+				if s.D != 0 {
+					s.D = 0
+					return true
+				}
+				return false
+			},
 		} {
 			if i >= len(best.Steps) {
 				break
